@@ -237,7 +237,7 @@ class G:
                 e = self.display(depth)
             elif r == 17:
                 e = self.comprehension(depth)
-            elif r == 18:
+            elif r == 18 and (self.profile != "binding" or self.b(1, 4)):
                 e = self.lambda_(depth)
             elif r == 19:
                 e = self.ifexp(depth)
@@ -1073,6 +1073,11 @@ def features(src, tree=None):
             if getattr(node, "decorator_list", None):
                 f.add("decorators")
         elif tn == "ClassDef":
+            for st_ in node.body:
+                if not isinstance(st_, (ast.FunctionDef, ast.AsyncFunctionDef, ast.ClassDef)):
+                    for sub in ast.walk(st_):
+                        if isinstance(sub, (ast.ListComp, ast.SetComp, ast.DictComp, ast.GeneratorExp)):
+                            f.add("comp_in_class_body")
             if node.keywords:
                 f.add("class_kw")
             if getattr(node, "type_params", None):
@@ -1099,6 +1104,9 @@ def features(src, tree=None):
             f.add("walrus")
         elif tn in ("ListComp", "SetComp", "DictComp", "GeneratorExp"):
             f.add("comprehension")
+            for sub in ast.walk(node):
+                if sub is not node and isinstance(sub, (ast.ListComp, ast.SetComp, ast.DictComp, ast.GeneratorExp)):
+                    f.add("nested_comp")
             for sub in ast.walk(node):
                 if isinstance(sub, ast.NamedExpr):
                     f.add("walrus_in_comp")
